@@ -180,6 +180,7 @@ samples.append({"expr_soups": len(soups), "example": soups[len(soups) // 2][:60]
 def bodies(n):
     names = [f"t{i}" for i in range(n)]
     forms = lambda t: [f"{{{{{t}}}}}", f"{{{{{t}|{{{{{{1|}}}}}}}}}}", f"{{{{{{x|{{{{{t}}}}}}}}}}}",
+                       f"{{{{{{ {{{{{t}}}}} }}}}}}", f"{{{{{{ {{{{{t}}}}} }}}}}}{{{{{{ {{{{{t}}}}} |d}}}}}}",
                        f"{{{{#if:{{{{{{1|}}}}}}|{{{{{t}}}}}|n}}}}", f"{{{{a|{{{{{t}}}}}}}}}"]
     return names, forms
 
@@ -248,7 +249,7 @@ for n in range(1, nmax + 1):
         for page in ("{{t0}}", "{{t0|1}}"):
             # a cycle guarded by #if or by a supplied default may legitimately not be entered: only
             # unconditional cycles must produce the error element
-            uncond = cyc and all(("#if" not in b and "{{{x|" not in b) for b in combo)
+            uncond = cyc and all(("#if" not in b and "{{{x|" not in b and "{{{ " not in b) for b in combo)
             expand_checked(c2, page, "core:Wtp.expand", {"library": lib, "page": page}, expect_error=uncond)
         distinct.add(("graph", combo))
         c2.close_db_conn()
@@ -261,8 +262,9 @@ for depth in (5, 50, 99, 100, 101, 150):
     if out is not None and depth <= 30 and out != "x":
         failures[("depth", depth)] = {"ident": "core:Wtp.expand#nested-calls-expand", "witness_class": "value",
                                       "what": f"depth {depth}: {out[:60]!r}", "witness": {"depth": depth}}
-c4 = new_ctx({"r": "{{r}}", "p": "{{q}}", "q": "{{p}}", "deep": "{{deep|{{{1|}}}x}}"})
-for page in ("{{r}}", "{{p}}", "{{deep}}", "{{r}} {{r}} {{p}}"):
+c4 = new_ctx({"r": "{{r}}", "p": "{{q}}", "q": "{{p}}", "deep": "{{deep|{{{1|}}}x}}",
+              "an": "{{{ {{an}} }}}{{{ {{an}} |d}}}", "ad": "{{{x| {{ad}} }}}{{{y|{{ad}}}}}"})
+for page in ("{{r}}", "{{p}}", "{{deep}}", "{{r}} {{r}} {{p}}", "{{an}}", "{{ad}}"):
     expand_checked(c4, page, "core:Wtp.expand", {"page": page, "library": "r->r, p<->q, deep->deep"}, expect_error=True)
 
 # ---- (3b) option combinations, several expansions per started page
@@ -295,8 +297,8 @@ def spec_loop(stack):
     return False
 
 
-alpha = ["a", "b", "ARGVAL-1"]
-for n in range(0, 8 if tier == "quick" else 10):
+alpha = ["a", "b", "ARGVAL-1", "ARG-NAME", "ARGNAME"]
+for n in range(0, 7 if tier == "quick" else 9):
     for st in itertools.product(alpha, repeat=n):
         evaluations += 1
         try:
